@@ -974,6 +974,7 @@ fn free_run(ctx: &Ctx, env: &Env, inst: &Instance, depth: usize) -> (HashSet<u64
 fn main() {
     // a stack overflow / abort in the code under test must become a verdict, not a dead check
     vcore::supervise("C15");
+    vcore::install_log_evaluation(); // logging is part of the environment: log arguments are evaluated as under a real subscriber
     let ctx = Ctx::from_args("C15", "model_checking");
     let env = Env::new();
     let cfgs = configs();
